@@ -58,6 +58,21 @@ class _SymPauliSum:
         return tot
 
 
+    def expectation_from_density_matrix(self, state, qubit_map, **k):
+        """tr(rho P) term by term (rho: symbolic 2^n x 2^n array, index = bitstring with qubit 0 first)"""
+        import cirq
+        arr = np.asarray(state, dtype=object)
+        rho = [[Sym.of(x) for x in row] for row in arr]
+        n = len(qubit_map)
+        name = {cirq.X: "X", cirq.Y: "Y", cirq.Z: "Z"}
+        tot = Sym.of(0)
+        for coef, ps in self.items:
+            for pstring in ps:
+                word = tuple(sorted((qubit_map[q], name[p]) for q, p in pstring.items()))
+                tot = tot + Sym.of(coef) * Sym.of(complex(pstring.coefficient)) * R.dm_expectation(rho, n, {word: R.C(1)})
+        return tot
+
+
 def _sym_translate_operator(real_translate):
     def translate_operator(qubit_operator, source, target, **kw):
         if source == "tangelo" and target == "cirq":
